@@ -2,5 +2,6 @@
 mod common;
 use libfuzzer_sys::fuzz_target;
 fuzz_target!(|data: &[u8]| {
-    common::drive("C02", data, gpa_verif::props::c02::strategy(), gpa_verif::props::c02::eval);
+    let mut w = common::Words::new(data);
+    common::judge("C02", gpa_verif::props::c02::case_from_words(&mut w), gpa_verif::props::c02::eval);
 });
